@@ -73,6 +73,11 @@ pub const SYMBOLS: &[(&str, Sym)] = &[
     ("recursive-enum-two-self", Sym::Item("#[typeshare]\n#[serde(tag = \"t\", content = \"c\")]\npub enum EdgeExpr { Add { lhs: Box<EdgeExpr>, rhs: Box<EdgeExpr> }, Neg(Box<EdgeExpr>), Lit(u32) }\n")),
     ("mutual-recursion-twice", Sym::Item("#[typeshare]\npub struct EdgeMa { pub b1: Option<Box<EdgeMb>>, pub b2: Vec<EdgeMb> }\n#[typeshare]\npub struct EdgeMb { pub a1: Option<Box<EdgeMa>>, pub a2: Vec<EdgeMa> }\n")),
     ("recursive-via-alias", Sym::Item("#[typeshare]\npub type EdgeKids = Vec<EdgeNode>;\n#[typeshare]\npub struct EdgeNode { pub kids: EdgeKids, pub more: EdgeKids }\n")),
+    // an untranslatable type whose text is long and not ASCII (a diagnostic that echoes it must not cut it inside a character)
+    ("unsupported-type-with-long-non-ascii-text-0", Sym::Item("#[typeshare]\npub struct EdgeLong0 { pub callback: Box<dyn Fn(éééééééééééééééééééééééééééééééééééééééééééééééééééééééééééé, ßßßßßßßßßßßß) -> EdgeOutcomeWithAVeryLongNameToGoPastEightyBytes + Send + Sync> }\n")),
+    ("unsupported-type-with-long-non-ascii-text-1", Sym::Item("#[typeshare]\npub struct EdgeLong1 { pub callback: Box<dyn Fn(xéééééééééééééééééééééééééééééééééééééééééééééééééééééééééééé, ßßßßßßßßßßßß) -> EdgeOutcomeWithAVeryLongNameToGoPastEightyBytes + Send + Sync> }\n")),
+    ("unsupported-type-with-long-non-ascii-text-2", Sym::Item("#[typeshare]\npub struct EdgeLong2 { pub callback: Box<dyn Fn(xxéééééééééééééééééééééééééééééééééééééééééééééééééééééééééééé, ßßßßßßßßßßßß) -> EdgeOutcomeWithAVeryLongNameToGoPastEightyBytes + Send + Sync> }\n")),
+    ("unsupported-type-with-long-non-ascii-text-3", Sym::Item("#[typeshare]\npub struct EdgeLong3 { pub callback: Box<dyn Fn(xxxéééééééééééééééééééééééééééééééééééééééééééééééééééééééééééé, ßßßßßßßßßßßß) -> EdgeOutcomeWithAVeryLongNameToGoPastEightyBytes + Send + Sync> }\n")),
     // alias / newtype chains that lead back to themselves, carried by a variant (a chain walk must still terminate)
     ("newtype-of-itself-in-variant", Sym::Item("#[typeshare]\npub struct EdgeHandle(Box<EdgeHandle>);\n#[typeshare]\n#[serde(tag = \"t\", content = \"c\")]\npub enum EdgeHolder { One(EdgeHandle), Many(Vec<EdgeHandle>), Nothing }\n")),
     ("newtype-pair-cycle-in-variant", Sym::Item("#[typeshare]\npub struct EdgeEven(Rc<EdgeOdd>);\n#[typeshare]\npub struct EdgeOdd(Arc<EdgeEven>);\n#[typeshare]\n#[serde(tag = \"t\", content = \"c\")]\npub enum EdgeParity { E(EdgeEven), O(EdgeOdd), Z }\n")),
